@@ -24,6 +24,33 @@ CHECKS = {
     ),
 }
 
+CHECKS.update({
+    'C01': dict(
+        script='checks/c01.py', category='model_checking', design='DESIGN.md §4 C01',
+        text=('Bounded symbolic model checking of the real IR of TimeZone/ExtendedZoneProcessor/brokers over the '
+              'compiled zonedbx tables: the epoch second t is a solver variable ranging over all of 2000..2049; zone '
+              '(387) and UTC year (50) are a driver case split that follows the cache key of the code; every leaf '
+              '(path condition, offset, delta, abbreviation) is compared with the zic/zdump step function by SMT '
+              'queries (unsat = no instant in the year differs), plus a coverage query per range. The year case split '
+              'rests on a contract for LocalDate::forEpochSeconds discharged on the IR in the same run.'),
+        technique='symbolic execution of clang LLVM IR (llsym) + SMT (z3); zic/zdump oracle; function contract for the year split',
+    ),
+    'C02': dict(
+        script='checks/c02.py', category='model_checking', design='DESIGN.md §4 C02',
+        text=('Same as C01 for BasicZoneProcessor over zonedb (268 zones x 50 years x Jan-1/rest split, t symbolic), '
+              'plus a relational obligation per (zone, year, basic leaf, extended leaf) showing both processors agree at '
+              'every instant for every shared zone, plus a call watch showing no transition is ever dropped from the '
+              '5-entry cache.'),
+        technique='symbolic execution of clang LLVM IR (llsym) + SMT (z3); zic/zdump oracle; relational leaf comparison',
+    ),
+    'C17': dict(
+        script='checks/c17.py', category='model_checking', design='DESIGN.md §4 C17',
+        text=('Kernel lemmas on the real IR of TimePeriod, TimeOffset and the mutation helpers with every argument a '
+              'solver variable over its full stated domain; each assertion and each sanitizer trap is an SMT query.'),
+        technique='symbolic execution of clang LLVM IR (llsym) + SMT (z3, cvc5 bv-as-int portfolio)',
+    ),
+})
+
 NOT_APPLICABLE = {
     'C19': ('the generators are sampling loops around pytz/dateutil tzinfo objects backed by binary tz files and '
             'C-implemented datetime; neither CrossHair nor our symbolic executor can make those symbolic, and a '
